@@ -203,3 +203,58 @@ def gen_refusals(g):
             raise NotGenerated(f"{rule} raised on control {lab}")
         g.oblige("cover", f"control-rule-acts:{lab}", [z3.BoolVal(gone not in out)], z3.BoolVal(True), fn.lineno)
     g.assumptions.add("one representative module per reason a name can mean something else; the bounded stand-in c19-programs-executed varies identifiers and binding forms")
+
+
+# ----------------------------------------------------------------------------- preserved names, on representatives (C08 / C07)
+LIBK = "class Converter:\n    def to_celsius(self, f):\n        return (f - 32) / 1.8\n\n\ndef make():\n    return Converter()\n"
+LIBS = "class Converter:\n    @staticmethod\n    def to_celsius(f):\n        return (f - 32) / 1.8\n\n\ndef make():\n    return Converter()\n"
+# (label, rule, module source, preserve set, text that must still be in the output)
+PRESERVE_REFUSALS = [
+    ("static-move:method-preserved-class-not-named", "object_oriented.move_staticmethod_static_scope", LIBS, ["to_celsius", "make"], "    def to_celsius(f)"),
+    ("static-move:method-preserved-and-class-preserved", "object_oriented.move_staticmethod_static_scope", LIBS, ["to_celsius", "Converter"], "    def to_celsius(f)"),
+    ("static-move:qualified-method-preserved", "object_oriented.move_staticmethod_static_scope", LIBS, ["Converter.to_celsius"], "    def to_celsius(f)"),
+    ("unused-definitions:function-preserved", "fixes.delete_unused_functions_and_classes", "def helperFn():\n    return 1\n", ["helperFn"], "def helperFn()"),
+    ("unused-definitions:class-preserved", "fixes.delete_unused_functions_and_classes", "class Helper:\n    pass\n", ["Helper"], "class Helper"),
+    ("unused-definitions:method-preserved", "fixes.delete_unused_functions_and_classes", LIBK + "\n\nprint(make())\n", ["to_celsius"], "def to_celsius(self, f)"),
+    ("unused-definitions:qualified-method-preserved", "fixes.delete_unused_functions_and_classes", LIBK + "\n\nprint(make())\n", ["Converter.to_celsius"], "def to_celsius(self, f)"),
+    ("convention:function-preserved", "fixes.align_variable_names_with_convention", "def helperFn():\n    return 1\n\n\nprint(helperFn())\n", ["helperFn"], "def helperFn()"),
+    ("convention:class-preserved", "fixes.align_variable_names_with_convention", "class helper_class:\n    pass\n\n\nprint(helper_class())\n", ["helper_class"], "class helper_class"),
+    ("convention:variable-preserved", "fixes.align_variable_names_with_convention", "someValue = 1\nprint(someValue)\n", ["someValue"], "someValue = 1"),
+    ("convention:method-preserved", "fixes.align_variable_names_with_convention", "class K:\n    def toCelsius(self, f):\n        return f\n\n\nprint(K().toCelsius(1))\n", ["toCelsius"], "def toCelsius(self, f)"),
+    ("unused-underscore:variable-preserved", "fixes.undefine_unused_variables", "someValue = 1\n", ["someValue"], "someValue = 1"),
+    ("duplicate-merge:removed-name-preserved", "fixes.remove_duplicate_functions", F1.format(a="f", b="g") + "print(f(1), g(2))\n", ["g"], "def g(x)"),
+    ("duplicate-merge:both-names-preserved", "fixes.remove_duplicate_functions", F1.format(a="f", b="g") + "print(f(1), g(2))\n", ["f", "g"], "def g(x)"),
+    ("unused-self:method-preserved", "object_oriented.remove_unused_self_cls", LIBK, ["to_celsius"], "def to_celsius("),
+]
+
+
+def gen_preserve_refusals(g):
+    """table obligations: every deleting / renaming rule (the real function) leaves a definition alone when its name - or Class.name - is in
+    the preserve set; one representative module per rule and kind of definition.  A rule that raises makes the obligation not-generated."""
+    from pyvc.replay import call_real
+    fn, text = find_def("object_oriented", "move_staticmethod_static_scope")
+    g.sha = segment_sha(text, fn)
+    g.lines = [fn.lineno, fn.end_lineno]
+    snippet = (
+        "import importlib, inspect\n"
+        "from pyrefact import logs\n"
+        "logs.set_level(100)\n"
+        "out = {}\n"
+        "for lab, rule, src, preserve in payload['cases']:\n"
+        "    mod, name = rule.split('.')\n"
+        "    f = getattr(importlib.import_module('pyrefact.' + mod), name)\n"
+        "    try:\n"
+        "        takes = 'preserve' in inspect.signature(f).parameters\n"
+        "        out[lab] = f(src, preserve=set(preserve)) if takes else f(src)\n"
+        "    except Exception as ex:\n"
+        "        out[lab] = None\n"
+        "print(json.dumps(out))\n")
+    res = call_real(snippet, {"cases": [(lab, rule, src, pres) for lab, rule, src, pres, _ in PRESERVE_REFUSALS]}, timeout=300)
+    for lab, rule, src, pres, keep in PRESERVE_REFUSALS:
+        out = res.get(lab)
+        if not isinstance(out, str):
+            raise NotGenerated(f"{rule} raised on representative {lab}")
+        g.oblige("table", f"preserved-definition-left-alone:{lab}", [], z3.BoolVal(keep in out), fn.lineno,
+                 replay=lambda m, rule=rule, src=src, pres=pres, out=out, keep=keep: {"reproduced": True, "input": f"{rule}({src!r}, preserve={set(pres)!r})", "observed": out,
+                                                                                      "required": f"the output still contains {keep!r}"})
+    g.assumptions.add("one representative module per rule and kind of preserved definition; the bounded stand-ins vary clients, access forms and option sets")
